@@ -38,6 +38,7 @@ pub fn case(ctx: &Ctx, shard: usize, index: u64, rep: &mut Report) {
     let n = if long { 260 + rng.below(400) as usize } else { 2 + rng.below(7) as usize };
     let mut pics: Vec<(Vec<u8>, usize, char)> = vec![]; // (padded bytes, bits of data before padding, kind)
     let mut have_ref = false;
+    let mut umv_pictures = 0u64;
     let mut tr = rng.byte();
     for _ in 0..n {
         tr = tr.wrapping_add(1 + rng.below(3) as u8);
@@ -56,6 +57,12 @@ pub fn case(ctx: &Ctx, shard: usize, index: u64, rep: &mut Report) {
             let mut sym = gen_inter(&mut rng, &cfg, &ic);
             // ... and some standard-mode ones do not restate the picture format
             let formatless = rng.chance(1, 3) && drop_format(&mut sym);
+            // ... and some carry their vector differences in the Annex D (unrestricted vectors) syntax; no
+            // property says what such a picture looks like, but it ends where its data ends like any other
+            let umv = !formatless && flavour == Flavour::StdPlus && rng.chance(1, 4) && set_umv_syntax(&mut rng, &mut sym);
+            if umv {
+                umv_pictures += 1;
+            }
             (sym, if early { 'T' } else if formatless { 'U' } else if disp { 'D' } else { 'P' })
         } else {
             if have_ref && !long && rng.chance(1, 3) {
@@ -152,6 +159,7 @@ pub fn case(ctx: &Ctx, shard: usize, index: u64, rep: &mut Report) {
     rep.count(&format!("len={}", if long { "long".to_string() } else { n.to_string() }));
     rep.count(if sorenson { "mode=sorenson" } else { "mode=standard" });
     rep.count("sequences_completed");
+    rep.add("completed_pictures_with_annex_d_vector_syntax", umv_pictures);
     if decoded >= 2 {
         rep.distinct.insert(fnv64(&all));
     }
@@ -196,6 +204,50 @@ fn compare_sequence(sorenson: bool, pics: &[(Vec<u8>, usize, char)], what: &str,
             return false;
         }
         start += bytes.len() * 8;
+    }
+    true
+}
+
+/// Switch a predicted PLUSPTYPE picture to the Annex D vector syntax; the vector differences become a mix
+/// of zero, the smallest (+-0.5: three-bit codes, also as a pair) and larger magnitudes.
+fn set_umv_syntax(rng: &mut Rng, pic: &mut crate::model::syntax::SymPicture) -> bool {
+    use crate::model::syntax::Hdr;
+    use crate::model::syntax::SymMb;
+    let ok = match &mut pic.hdr {
+        Hdr::Std(h) => match h.plus.as_mut() {
+            Some(p) if p.ufep == 1 && p.ptype != 0 => {
+                p.umv = true;
+                p.uui_unlimited = rng.chance(1, 2);
+                true
+            }
+            _ => false,
+        },
+        _ => false,
+    };
+    if !ok {
+        return false;
+    }
+    for mb in pic.mbs.iter_mut() {
+        if let SymMb::Coded { mvd, .. } = mb {
+            for v in mvd.iter_mut() {
+                match rng.below(4) {
+                    0 => *v = [1, 1],
+                    1 => {
+                        for c in v.iter_mut() {
+                            *c = *rng.pick(&[-1, 0, 1]);
+                        }
+                    }
+                    2 => {
+                        for c in v.iter_mut() {
+                            if *c != 99 {
+                                *c = rng.range(-40, 40) as i32;
+                            }
+                        }
+                    }
+                    _ => {}
+                }
+            }
+        }
     }
     true
 }
